@@ -40,7 +40,7 @@ MANIFEST_ENTRY = {
                  "lemmas) + model-vs-implementation correspondence with the specification executed as the reference simulator",
 }
 RULE = ("a case is one generated ptychography configuration pushed through simulate → real preprocess → real forward pipeline → "
-        "all loss types × batch sizes × (truth + 5 perturbations); evaluations count every real loss evaluation and every compared "
+        "all loss types × batch sizes × (truth + 5 perturbations) + two histories of 2-4 reconstruct() calls on the same object; evaluations count every real loss evaluation and every compared "
         "observable; distinct non-trivial = distinct (row parity, col parity, square?, obj type, #slices, #modes, com fit, padded?, "
         "dyadic step?) signature with at least 9 scan positions")
 TRUSTED = ["torch.fft / numpy.fft compute the defining DFT sums; torch advanced indexing, round-half-even of torch.round/np.round (modelled, sampled)",
@@ -67,6 +67,11 @@ ASSUMPTIONS = [
     "known finding scan-exceeds-object-box:clip_scan_positions: configurations whose initial raster leaves [0, obj_shape-1] (used padding < 2) "
     "are generated with low weight, their predicate failures are routed to that one key; theorem forward_eq_spec carries the matching "
     "hypothesis InBox and scan_exceeds_object_box_counterexample shows it is not automatic",
+    "histories: on the one Ptychography object at the ground truth two histories of 2-4 real reconstruct(num_iters=1) calls are run "
+    "(loss types from all four, at least one amplitude<->intensity switch without reset, random reset=True, batch size, autograd on/off, "
+    "optimizer_params given or not); optimiser steps are no-ops and reset_recon is followed by re-installing the truth (instance-level "
+    "wrappers); at every call: loss at the truth zero against the dataset's correct centred targets, prediction = simulated data, every "
+    "batch loss equal to a fresh object's (own dataset) for the same batch order",
     "strict increase is measured at random perturbations only (not a theorem: it depends on the perturbation not being a symmetry); "
     "stationarity / autograd gradients are not evaluated",
 ]
@@ -226,6 +231,91 @@ def loss_scale(p, lt, bi, mask):
     t = p.dset.targets[bi].double().numpy() * mask
     e = np.sum(np.abs(t)) if "l1" in lt else np.sum(np.abs(t) ** 2)
     return float(e / (len(bi) / p.dset.num_gpts) / p.dset.mean_diffraction_intensity)
+
+
+def true_scale(pd, lt, bi, mask):
+    """loss of a zero prediction against the CORRECT preprocessed targets of this loss type (taken from the dataset's
+    centred amplitudes / intensities, not from whatever `dset.targets` currently holds)"""
+    src = pd.centered_amplitudes if "amplitude" in lt else pd.centered_intensities
+    t = src[bi].double().numpy() * mask
+    e = np.sum(np.abs(t)) if "l1" in lt else np.sum(np.abs(t) ** 2)
+    return float(e / (len(bi) / pd.num_gpts) / pd.mean_diffraction_intensity)
+
+
+def gen_history(rng, n):
+    """2-4 reconstruct() calls: loss types from all four, resets, batch sizes and other per-call options vary; at least one
+    change of the loss family (amplitude <-> intensity) happens WITHOUT a reset in between"""
+    L = rng.randint(2, 4)
+    lts = [rng.choice(list(cp.LOSS_TYPES)) for _ in range(L)]
+    resets = [rng.chance(0.3) for _ in range(L)]          # reset flag of each call (the first call: fresh object either way)
+    fam = lambda lt: "amplitude" in lt
+    if not any(fam(lts[k]) != fam(lts[k - 1]) and not resets[k] for k in range(1, L)):
+        k = rng.randint(1, L - 1)
+        other = [lt for lt in cp.LOSS_TYPES if fam(lt) != fam(lts[k - 1])]
+        lts[k] = rng.choice(other)
+        resets[k] = False
+    calls = []
+    for k in range(L):
+        calls.append({"loss_type": lts[k], "reset": bool(resets[k]), "batch_size": rng.choice([n, 1, rng.randint(2, max(2, n - 1)), rng.choice([2, 3, 4, 5])]),
+                      "autograd": not rng.chance(0.2), "pass_optimizer": True if k == 0 else rng.chance(0.6)})
+    return calls
+
+
+def history_stream(ctx, case, cfg, p, pd, data, truth, mask, mean_I, pix, applicable, clipped, key, rng):
+    """histories of real reconstruct() calls on ONE Ptychography object initialised at the ground truth.  At every call:
+    loss at the truth zero to precision (against the correct targets of that call's loss type), predicted intensities = the
+    simulated data, and every batch loss equal to that of a fresh object evaluated with the same options / batch order."""
+    n = pd.num_gpts
+    r0, r1 = cfg["roi"]
+    # fresh twin: its own dataset (the targets live in the dataset) and its own Ptychography, truth installed
+    pd_f = cp.make_dataset(cfg, data.reshape(cfg["scan"][0], cfg["scan"][1], r0, r1))
+    p_f = cp.make_ptycho(cfg, pd_f, truth[1])
+    cp.install_truth(p_f, cfg, *truth)
+    for h in range(2):
+        calls = gen_history(rng, n)
+        if h == 1:
+            cp.install_truth(p, cfg, *truth)
+        hist = [{k: c[k] for k in ("loss_type", "reset", "batch_size", "autograd")} for c in calls]
+        ctx.dist[f"history.length={len(calls)}"] += 1
+        for k, c in enumerate(calls):
+            lt = c["loss_type"]
+            prev = calls[k - 1]["loss_type"] if k else None
+            switch = k > 0 and ("amplitude" in prev) != ("amplitude" in lt)
+            ctx.dist[f"history.call:{'first' if k == 0 else ('family-switch' if switch else 'same-family')},reset={c['reset']}"] += 1
+            ctx.dist[f"history.autograd={c['autograd']}"] += 1
+            recs = cp.reconstruct_call(p, cfg, truth, lt, c["batch_size"], c["reset"], c["autograd"], c["pass_optimizer"])
+            hcase = {**case, "history": hist, "call": k}
+            tol = TOL_L1 if "l1" in lt else TOL_L2
+            order = [i for r in recs for i in r["indices"]]
+            ctx.count()
+            if sorted(order) != list(range(n)):
+                ctx.disagree("history-batches", hcase, list(range(n)), sorted(order), "one epoch must visit every pattern exactly once")
+                continue
+            fresh = cp.run_pipeline(p_f, lt, c["batch_size"], order=order)
+            worst, worst_f, worst_pred = 0.0, 0.0, 0.0
+            for r, f in zip(recs, fresh):
+                bi = r["indices"]
+                sc = true_scale(pd, lt, bi, mask)
+                res = amplitude_residual(lt, data[bi], mask, len(bi), n, mean_I)
+                worst = max(worst, abs(r["loss"] - res) / sc if sc > 0 else float("inf"))
+                worst_f = max(worst_f, abs(r["loss"] - f["loss"]) / sc if sc > 0 else float("inf"))
+                worst_pred = max(worst_pred, maxabs(r["pred"] - data[bi]) / pix / max(1.0, maxabs(data[bi]) / pix))
+                ctx.count(3)
+            ctx.stat_max("history.loss_vs_fresh_object_rel", worst_f)
+            if not (worst_f <= 2 * TOL_L1):
+                ctx.pred_fail("history-differs-from-fresh-object" if not clipped else key("history"),
+                              f"{lt} loss of call {k} of a reconstruct() history differs from a fresh object given the same options", hcase,
+                              observed=f"|loss(history) - loss(fresh)|/scale={worst_f:.4g}", required=f"<= {2 * TOL_L1:g}")
+            if applicable and not clipped:
+                ctx.stat_max(f"history.loss_at_truth_rel[{lt}]", worst)
+                ctx.stat_max("history.prediction_vs_reference", worst_pred)
+                if not (worst <= tol):
+                    ctx.pred_fail(key("history-loss-at-truth"), f"{lt} loss at the ground truth is not zero at call {k} of a reconstruct() history", hcase,
+                                  observed=f"|loss - eps residual|/scale={worst:.4g}", required=f"<= {tol:g}")
+                if not (worst_pred <= TOL32):
+                    ctx.pred_fail(key("history-prediction"), f"predicted intensities differ from the simulated data at call {k} of a reconstruct() history", hcase,
+                                  observed=f"max|pred - data|/scale={worst_pred:.4g}", required=f"<= {TOL32:g}")
+    cp.install_truth(p, cfg, *truth)
 
 
 def amplitude_residual(lt, I, mask, b, n, mean_I):
@@ -485,6 +575,8 @@ def _pipeline_case(ctx, drv, case, light=False):
         ml = b2f(ask(drv, {"op": "loss", "loss_type": lt, "preds": [enc_rows(x) for x in recs[0]["pred"]],
                            "targets": [enc_rows(x) for x in p.dset.targets.double().numpy()], "mask": enc_rows(mask), "num_gpts": n, "mean_intensity": f2b(mean_I)}))
         corr(ctx, f"loss-value[{lt}]", case, np.array([ml]), np.array([recs[0]["loss"]]), TOL32, note="at the truth")
+    # histories of real reconstruct() calls on this one object (state left behind by earlier calls must not matter)
+    history_stream(ctx, case, cfg, p, pd, data, (phi, probe_lib), mask, mean_I, pix, applicable, clipped, key, rng)
     # perturbations: 3 of the object, 2 of the probe
     prng = np.random.default_rng(cfg["truth_seed"] % (2 ** 32))
     perts = []
